@@ -2,6 +2,7 @@
 Evaluation of protocol cases on the model (instance A).
 -/
 import Driver.Proto
+import Driver.Hist
 namespace RosedVerif.Driver
 open RosedVerif
 
@@ -296,6 +297,11 @@ def evalLine (line : String) : String :=
             [0x1F468, r, 0x200D, 0x1F469], [0x1F1E9, r], [0x1100, r], [r, 0x1161], [r, 0x11A8]] : List (List Int)).map
               fun p => showInts (splitRunes p))
         | none => "X~parse"
+      | "hist", [steps] => evalHist steps
+      | "progz", [steps] =>
+        -- claim: no public operation writes package-level state, so the flag never moves
+        ",".intercalate ((steps.splitOn ";").map fun _ => if Gen.zeroCachePrefilled then "1" else "0")
+      | "rel", [_, steps] => evalProg steps false
       | "prog", [steps] => evalProg steps false
       | "pool", [steps] => evalProg steps true
       | "collapse", [t, sep] => match parseText t, parseText sep with
